@@ -275,6 +275,12 @@ func (f *Frame) inlineClosure(mc *ssa.MakeClosure, args []string, reach string, 
 	fn := mc.Fn.(*ssa.Function)
 	if !e.canInline(fn, f.depth) {
 		e.fullHavoc(st, "closure "+fn.Name()+" not inlinable")
+		for _, b := range mc.Bindings {
+			// private locals captured by the closure may be written by it
+			if p, ok := f.places[b]; ok && strings.HasPrefix(p.comp, "L_") {
+				e.havocComp(st, p.comp)
+			}
+		}
 		return callOut{reach, f.symbolicResults(fn.Signature, st, reach, fn.Name()), st}
 	}
 	nf := e.newFrame(fn, f.depth+1)
